@@ -362,7 +362,7 @@ func c19Constructors(r *core.Run) {
 }
 
 func runC19(r *core.Run) {
-	r.Rule = "every pair of equivalent entry points on the full C01 input space of its structure (E1 bases at bound 2/3 + operator menu + byte-walk), restricted to the pair's stated domain (declared key types for the type-specific readers, permitted types for the Destination/RouterIdentity wrappers); constructor pairs on the full product of a 21-code menu per axis, 256 certificate types x 8 payloads, every string length 0..300 x 5 character widths, integer boundary values x sizes -1..9. Oracle: same accept/reject, byte-identical serialisation and remainder. non-trivial = distinct inputs both entry points accepted and whose results were compared"
+	r.Rule = "every pair of equivalent entry points on the full C01 input space of its structure (E1 bases at bound 2/3 + operator menu + byte-walk), restricted to the pair's stated domain (declared key types for the type-specific readers, permitted types for the Destination/RouterIdentity wrappers); constructor pairs on the full product of a 21-code menu per axis, 256 certificate types x 8 payloads, every string length 0..300 x 5 character widths, integer boundary values x sizes -1..9; E4: every sequence of <= 4 (thorough 5) CertificateBuilder operations over a 15-operation alphabet (WithType x 5, WithPayload x 4, WithKeyTypes x 4 incl. negative and > 65535, Build, Validate) on a fresh builder against a last-writer-wins reference model, judged after every sequence by the direct constructor on the model's (type, payload) and by 'certificates handed out earlier do not change'. Oracle: same accept/reject, byte-identical serialisation and remainder. non-trivial = distinct inputs both entry points accepted and whose results were compared"
 	o := enumOpts{BaseBound: 2, MutateBound: 1, Families: []string{"KeysAndCert", "RouterInfo", "LeaseSet", "LeaseSet2", "Certificate", "Mapping", "Lease", "Lease2", "Signature", "Fixed"}}
 	if !r.Quick() {
 		o.BaseBound, o.MutateBound, o.AllCuts = 3, 2, true
